@@ -67,6 +67,9 @@ def gen_cases(tier, seed):
     for i in range(4 if tier == 'quick' else 60):
         cases.append({'kind': 'servers', 'n': 12, 'capacity': rng.choice([2, 3]), 'return_x': False, 'return_exceptions': True, 'sessions': 2,
                       'reject_every': [0, 3][i % 2], 'fail_every': [0, 4][i // 2 % 2], 'threads': 3, 'waiters': True, 'seed': rng.randrange(1 << 30)})
+    # the time limit of a request that first has to wait for room
+    for i in range(2 if tier == 'quick' else 8):
+        cases.append({'kind': 'servers', 'deadline_after_wait': True, 'seed': rng.randrange(1 << 30)})
     # the submission of a stream element fails (no room within the stream's timeout), with and without a preprocessor
     for pre in (False, True):
         for rx in (False, True):
